@@ -4,6 +4,7 @@
 //      parse_hex (E-rw-5): every 2-character / 4-character hex string (full domain of the two instantiations)
 //  * checks the three capacity self-checks (assert_eq! on Vec::capacity, dropped from the Verus text, E-drop-2)
 //    on the real code at fixed data lengths (bounded stand-in).
+#![allow(dead_code, unused_imports, unused_variables, unused_results)]
 use super::*;
 
 pub(crate) const CHECKSUM_MAX: usize = 259; // 4 header bytes + 255 data bytes: Verus proves len <= 259 at both call sites
